@@ -196,7 +196,7 @@ static void run_rs(long rep)
 					for (;;) {
 						if (__atomic_load_n(&p->parked, __ATOMIC_ACQUIRE)) { r = 1; break; }
 						if (__atomic_load_n(&p->done_seq, __ATOMIC_ACQUIRE) == p->cmd_seq) { r = 0; break; }
-						if (vp_now_ns() - t0 > 8000000000ULL)
+						if (vp_now_ns() - t0 > PARK_TIMEOUT_NS)
 							break;
 						__asm__ __volatile__("pause");
 					}
@@ -207,7 +207,7 @@ static void run_rs(long rep)
 					uint64_t t0 = vp_now_ns();
 					while (!__atomic_load_n(&parkers[1].parked, __ATOMIC_ACQUIRE) &&
 					       __atomic_load_n(&parkers[1].done_seq, __ATOMIC_ACQUIRE) != parkers[1].cmd_seq &&
-					       vp_now_ns() - t0 < 8000000000ULL)
+					       vp_now_ns() - t0 < PARK_TIMEOUT_NS)
 						__asm__ __volatile__("pause");
 					got += __atomic_load_n(&parkers[1].parked, __ATOMIC_ACQUIRE) == 1;
 				}
@@ -216,7 +216,7 @@ static void run_rs(long rep)
 					uint64_t t0 = vp_now_ns();
 					while (!__atomic_load_n(&parkers[2].parked, __ATOMIC_ACQUIRE) &&
 					       __atomic_load_n(&parkers[2].done_seq, __ATOMIC_ACQUIRE) != parkers[2].cmd_seq &&
-					       vp_now_ns() - t0 < 8000000000ULL)
+					       vp_now_ns() - t0 < PARK_TIMEOUT_NS)
 						__asm__ __volatile__("pause");
 					got += __atomic_load_n(&parkers[2].parked, __ATOMIC_ACQUIRE) == 1;
 				}
